@@ -274,6 +274,35 @@ def check(ctx, p):
             if ni is None or ni["dir"] != "up" or ni["start"] != one or ni["end"] != frozenset([Nn]) or n not in some:
                 ctx.fail("C14-R5", C2IR, "h[n] index", "h[%s] written; expected n in 1..len" % k, loc)
                 continue
+            # fold form: h[n] = (1..min(len(c), n+1)).fold(0.0, |acc, k| acc + k*c[k]*h[n-k]) / n
+            if val[0] == "bin" and val[1] == "Div" and syms.poly(val[3]) == k and val[2][0] == "call" and val[2][1].endswith("::fold") and len(val[2][2]) == 3:
+                from ..expr import resolve_upvars
+                rg, init_, clo = val[2][2]
+                cbf = p.bodies.get(clo[1][len("closure:"):]) if clo[0] == "agg" and clo[1].startswith("closure:") else None
+                okf = False
+                if cbf is not None and rg[0] == "agg" and rg[1].endswith("Range::Range") and init_[0] == "c" and float(init_[1]) == 0.0:
+                    ends = frozenset(syms.min_alts(rg[2][1]))
+                    rng_ok = syms.poly(rg[2][0]) == one and ends == frozenset([LS, k + one])
+                    r_ = resolve_upvars(p, cbf, ExprBuilder(cbf).local(0))
+                    if rng_ok and r_[0] == "bin" and r_[1] == "Add" and r_[2][0] == "arg" and r_[2][1] == 2:
+                        fs = factors(r_[3])
+                        KK = Poly.atom(("K",))
+                        pol_k = lambda e: to_poly(e, lambda x: ("K",) if x[0] == "arg" and x[1] == 3 else syms.atomize(x))
+                        pr = {"k": False, "c": False, "h": False}
+                        for f in fs:
+                            if f[0] == "cast" and pol_k(f) == KK:
+                                pr["k"] = True
+                            if f[0] == "idx" and (_is_self(f[1]) or show(f[1]) in ("self", "*self")) and pol_k(f[2]) == KK:
+                                pr["c"] = True
+                            if f[0] == "idx" and not _is_self(f[1]) and pol_k(f[2]) == k - KK:
+                                pr["h"] = True
+                        okf = all(pr.values()) and len(fs) == 3
+                if okf:
+                    got["hn"] = True
+                    ctx.ok("C14-R5", "h[n] = (fold over k in 1..min(len(c), n+1) of k*c[k]*h[n-k], from 0) / n", loc)
+                else:
+                    ctx.fail("C14-R5", C2IR, "h[n] value", "h[n] = %s, expected (sum_k k*c[k]*h[n-k]) / n" % show(val)[:120], loc)
+                continue
             # value = d / n, d accumulated over k
             if not (val[0] == "bin" and val[1] == "Div" and val[2][0] == "var" and val[2][2] == "acc" and syms.poly(val[3]) == k):
                 ctx.fail("C14-R5", C2IR, "h[n] value", "h[n] = %s, expected d / n" % show(val)[:100], loc)
